@@ -2,6 +2,7 @@ package main
 
 import (
 	"fmt"
+	"hash/fnv"
 	"math"
 	"math/big"
 	"sort"
@@ -189,6 +190,23 @@ func (rn *runner) orderCase(x, y, z *apd.Decimal) {
 	nontrivial := x.Form == apd.Finite && y.Form == apd.Finite
 	rn.rawCase("order3", in, nontrivial, "order", func() string {
 		xc, yc, zc := new(apd.Decimal).Set(x), new(apd.Decimal).Set(y), new(apd.Decimal).Set(z)
+		// the same values with heap-backed coefficients (a BigInt that once outgrew its inline array stays on the
+		// heap): which operands, is a function of the input line, so that a replay repeats it
+		hs := fnv.New32a()
+		hs.Write([]byte(in))
+		switch hs.Sum32() % 6 {
+		case 1:
+			heapify(xc)
+		case 2:
+			heapify(yc)
+		case 3:
+			heapify(xc)
+			heapify(zc)
+		case 4:
+			heapify(xc)
+			heapify(yc)
+			heapify(zc)
+		}
 		var sb strings.Builder
 		fmt.Fprintf(&sb, "%d %d %d %d %d %d %d %d", xc.Cmp(yc), yc.Cmp(xc), yc.Cmp(zc), xc.Cmp(zc),
 			xc.CmpTotal(yc), yc.CmpTotal(xc), yc.CmpTotal(zc), xc.CmpTotal(zc))
